@@ -179,6 +179,19 @@ def run(ctx, prop):
             vid = 'neutral/' + kind
             neutral_ids.append(vid)
             variants.append((vid, ov, '<none>'))
+    # ... and the behaviour-preserving refactoring patches written by independent sub-agents (neutral/*.diff, DESIGN.md §8.8)
+    nd = os.path.join(VERIF, 'neutral')
+    if os.path.isdir(nd) and os.environ.get('VERIF_NO_NEUTRAL') != '1':
+        for fn in sorted(os.listdir(nd)):
+            if not fn.endswith('.diff'):
+                continue
+            ov = apply_unified_diff(sources, open(os.path.join(nd, fn)).read())
+            if ov is None:
+                skipped.append('neutral/' + fn)
+                continue
+            vid = 'neutral/' + fn[:-5]
+            neutral_ids.append(vid)
+            variants.append((vid, ov, '<none>'))
     jobs = [(prop, ctx.root, ov, vid) for vid, ov, rule in variants]
     results = {}
     if jobs:
